@@ -22,8 +22,10 @@
 #endif
 #ifdef PROP_C10
 #define ENS_C10(x) __CPROVER_ensures(x)
+#define REQ_C10(x) __CPROVER_requires(x)
 #else
 #define ENS_C10(x)
+#define REQ_C10(x)
 #endif
 
 /* "the next index exceeds every existing index of that day": stated by C09; C05, C07 and C10 rely on it too (a reused name is a refused
@@ -46,7 +48,11 @@ static inline QFile *qobject_cast_QFileP__QObjectP(QObject *o) { return (QFile *
 #define PRIV_FLAGS(d) (IS_BOOL((d)->m_rotationOnStartup) && IS_BOOL((d)->m_rotationDaily) && IS_BOOL((d)->m_compression) && IS_BOOL((d)->m_initialized) \
     && ((d)->m_currentLogDate.jd == JD_NULL || ((d)->m_currentLogDate.jd > -4000000000LL && (d)->m_currentLogDate.jd < 4000000000LL)))
 #define LEDGER_OK() (DIR_INV() && ACTIVE_VALID() && IS_BOOL(g_suffix_empty) && ROT_VALID(g_new) && IS_BOOL(g_gz_exists) && IS_BOOL(g_gz_complete) && IS_BOOL(g_gz_has_all) \
-    && g_new_is_w >= -1 && g_new_is_w <= 1)
+    && g_new_is_w >= -1 && g_new_is_w <= 1 && NEW_CONSISTENT(0) && NEW_CONSISTENT(1))
+/* if the file created by the rotation in progress is one of the witnesses, the two records agree */
+#define NEW_CONSISTENT(k) (g_new_is_w != (k) || (g_w[k].exists == g_new.exists && g_w[k].jd == g_new.jd && g_w[k].idx == g_new.idx && g_w[k].gz == g_new.gz && g_w[k].recs == g_new.recs && g_w[k].size == g_new.size))
+/* its name is fresh: no OTHER existing rotated file has the same day and index (C09's statement, proved for findNextIndexForDate) */
+#define NEW_FRESH() ((!(g_w[0].exists && g_new_is_w != 0) || !(g_w[0].jd == g_new.jd && g_w[0].idx == g_new.idx)) && (!(g_w[1].exists && g_new_is_w != 1) || !(g_w[1].jd == g_new.jd && g_w[1].idx == g_new.idx)))
 /* machine ranges (preconditions only; stated assumption: sizes and counts below 10^12) */
 /* sizes and counts stay below the constant ghost bound g_B in every helper (content only MOVES between files there; it grows
  * only in write); sequence numbers and indices grow by at most one per rotation: K = slack for the few rotations of one send */
@@ -55,8 +61,9 @@ static inline QFile *qobject_cast_QFileP__QObjectP(QObject *o) { return (QFile *
 #define LEDGER_RANGE() LEDGER_RANGE_K(0)          /* top level (send) */
 #define LEDGER_RANGE2() LEDGER_RANGE_K(12)        /* loop-carrying helpers */
 
+#define GZ_QUIET() (g_gz_exists == 0)
 #define LEDGER_GHOSTS g_w, g_R_count, g_seq, g_A_exists, g_A_size, g_A_recs, g_A_day, g_A_mday, g_A_mtime, g_open, g_W, g_lost, g_foreign_touched, g_removes, g_renames_ok, \
-    g_last_write_len, g_last_write_ok, g_writes, g_comp_removes, g_new, g_new_is_w, g_idx_bound, g_gz_exists, g_gz_complete, g_gz_has_all, g_today, g_list_own_seen, g_list_next, g_first_cell, \
+    g_last_write_len, g_last_write_ok, g_writes, g_comp_removes, g_new, g_new_is_w, g_idx_bound, g_gz_exists, g_gz_complete, g_gz_has_all, g_out_hdr, g_out_payload, g_out_trailer, g_today, g_list_own_seen, g_list_next, g_first_cell, \
     DEV(&g_sinkfile).open, DEV(&g_sinkfile).mode
 
 /* ---- findNextIndexForDate: scans the directory; result exceeds the index of every existing rotated file of that day ---- */
@@ -98,6 +105,7 @@ ENS_C06(__CPROVER_return_value._base.sorted == 1);                        /* old
 /* ---- removeOldFiles: retention ---- */
 void RotatingFileSink_RotatingFileSinkPrivate_removeOldFiles(Priv *self)
 __CPROVER_requires(PRIV_OK(self) && LEDGER_OK() && LEDGER_RANGE2() && g_gz_exists == 0)      /* no compression in progress */
+REQ_C10(g_lost == 0)
 __CPROVER_assigns(g_w, g_R_count, g_removes, g_lost, g_foreign_touched, g_new, g_gz_exists, g_list_own_seen, g_list_next, g_first_cell)
 __CPROVER_ensures(LEDGER_OK())
 __CPROVER_ensures(g_foreign_touched == __CPROVER_old(g_foreign_touched))
@@ -143,9 +151,10 @@ __CPROVER_requires(LEDGER_RANGE_K(8))
 __CPROVER_requires(g_gz_exists == 0)
 __CPROVER_requires(IS_BOOL(g_clock_frozen))
 REQ_C09(g_A_recs > 0 ==> self->m_currentLogDate.jd == g_A_day)
+REQ_C10(g_lost == 0)
 REQ_C07(g_L == self->m_maxFileSize && (g_L <= 0 || g_A_size <= g_L || g_A_recs == 1))
 __CPROVER_assigns(LEDGER_GHOSTS, self->m_currentLogDate)
-__CPROVER_ensures(LEDGER_OK() && g_gz_exists == 0 && PRIV_FLAGS(self))
+__CPROVER_ensures(LEDGER_OK() && GZ_QUIET() && PRIV_FLAGS(self))
 /* ranges: at most one new file, sizes only move */
 __CPROVER_ensures(g_seq <= __CPROVER_old(g_seq) + 1 && g_idx_bound <= __CPROVER_old(g_idx_bound) + 1 && g_A_size <= __CPROVER_old(g_A_size) && g_A_recs <= __CPROVER_old(g_A_recs) && SZ_RANGE())
 __CPROVER_ensures(g_writes == __CPROVER_old(g_writes) && g_W == __CPROVER_old(g_W) && g_today >= __CPROVER_old(g_today) && (g_clock_frozen ==> g_today == __CPROVER_old(g_today)))
@@ -164,7 +173,7 @@ ENS_NEXTIDX((self->m_maxFileCount != 1 && __CPROVER_old(g_A_exists)) ==> g_renam
 #endif
 #endif
 ENS_C05(g_lost == __CPROVER_old(g_lost) && g_foreign_touched == __CPROVER_old(g_foreign_touched))
-ENS_C10(g_lost == __CPROVER_old(g_lost))
+ENS_C10(g_lost == __CPROVER_old(g_lost) && g_foreign_touched == __CPROVER_old(g_foreign_touched))
 ENS_C06(self->m_maxFileCount <= 0 ==> g_removes == __CPROVER_old(g_removes))
 ENS_C06(self->m_maxFileCount >= 2 ==> g_R_count <= self->m_maxFileCount - 1)
 ENS_C06(g_foreign_touched == __CPROVER_old(g_foreign_touched))
